@@ -1,6 +1,7 @@
 """C06 - a rule that reports it applies can be applied; the applicability check is pure;
 find_nodes / find_node agree with can_apply_to in in-order."""
 from . import steps
+from ..acc import Acc
 from .. import sig as SG
 from ..explore import rewrite as RW
 from ..oracle import audit
@@ -100,6 +101,53 @@ def judge_transition(cname, node, result, change, error, nb=None):
     return []
 
 
+RULE_BATTERY = ["4 + 8", "4x + 8y", "4x + 8x", "6 + 9", "6x + 9x", "9 + 15", "-8^0.5", "(-8)^0.5 + 1", "2^-3 + x", "x * x", "2x * 3x^2", "7 - 3",
+                "x / -y", "(2 + 3) * x", "2x + 3 = 7", "3x = 9", "(x + 1) + 2", "2 * 3 * x", "4x^0 + x^0", "0.5x + 1.5x"]
+
+
+def _rule_battery():
+    """every configuration asked about every node of every battery tree, and every applicable rewrite executed:
+    answers, results and exception types as plain data"""
+    from mathy_core.parser import ExpressionParser
+
+    out = []
+    RW.reset_configs()
+    for t in RULE_BATTERY:
+        tree = ExpressionParser().parse(t)
+        nodes = RW.inorder(tree)
+        for cname, rule in RW.configs():
+            for i, n in enumerate(nodes):
+                try:
+                    can = bool(rule.can_apply_to(n))
+                except Exception as e:  # noqa
+                    out.append((t, cname, i, "can-raises", type(e).__name__))
+                    continue
+                if not can:
+                    out.append((t, cname, i, False, None))
+                    continue
+                try:
+                    res, _ = RW.step(tree, rule, i)
+                    out.append((t, cname, i, True, SG.show(SG.sig(RW.get_root(res)))))
+                except Exception as e:  # noqa
+                    out.append((t, cname, i, True, "apply-raises:" + type(e).__name__))
+    return out
+
+
+def check_disturbed_rules():
+    from ..explore import disturb
+
+    return [("rule-answers-depend-on-earlier-unrelated-calls", f"after {name}: {before} became {after}")
+            for name, i, before, after in disturb.run(_rule_battery)]
+
+
+def _disturb_task(_):
+    acc = Acc()
+    acc.count("can_apply_calls", 8 * len(RULE_BATTERY) * 11 * 5)
+    for kind, detail in check_disturbed_rules():
+        acc.violation(kind, {"kind": "disturb"}, detail)
+    return acc
+
+
 class V(steps.Visitor):
     def on_state(self, acc, ctx, root, s):
         res, ncalls = check_state(root, s)
@@ -167,6 +215,9 @@ def run(tier, seed):
     dup += [f"({a}) * ({a})" for a in ("x + 1", "2x", "x + y")] + [f"{a} + {a} = {a}" for a in ("2x", "x + 1")]
     dup += [t for t in steps.small_texts("expr") if t.count("x") >= 2][::6]
     acc.merge(steps.run(V, dup, "dupids", "any", seed, 0, key="dup"))
+    # answers and results of a fixed battery must not change after unrelated calls (state that outlives a call)
+    from .. import par
+    acc.merge(par.run_fresh(_disturb_task, None))
     cov = {
         "states": len(acc.keys),
         "transitions": acc.n["transitions"],
@@ -185,6 +236,8 @@ def run(tier, seed):
 
 
 def _replay_direct(case):
+    if case.get("kind") == "disturb":
+        return check_disturbed_rules()
     if case.get("kind") == "live" or case.get("dup_ids"):
         return []  # reproduced by re-exploring the seed (see replay)
     if case.get("kind") == "state":
@@ -198,17 +251,5 @@ def _replay_direct(case):
 
 
 def replay(case):
-    """direct replay of the recorded trace; if the recorded violation depends on state that rule objects
-    carried over from the exploration of the same seed, fall back to re-exploring that seed from fresh
-    rule objects (deterministic: rule objects are reset per seed)"""
-    want = case.get("_core")
-    try:
-        got = _replay_direct(case)
-    except Exception:  # noqa
-        got = []
-    if got and (want is None or any(c == want for c, _ in got)):
-        return got
-    again = steps.reexplore(case, V)
-    if want is not None and any(c == want for c, _ in again):
-        return [(c, d) for c, d in again if c == want]
-    return again or got
+    """three-level replay, each level in a fresh process (see steps.layered_replay)"""
+    return steps.layered_replay(case, _replay_direct, V)
